@@ -208,6 +208,13 @@ func (ids ACLServiceIdentities) Deduplicate() ACLServiceIdentities {
 	for _, id := range ids {
 		entry, ok := unique[id.ServiceName]
 		if ok {
+			if len(entry.Datacenters) == 0 || len(id.Datacenters) == 0 {
+				// An empty list means "valid in every datacenter", so the merged
+				// identity must be valid everywhere too. Uniting the lists would
+				// narrow it to the datacenters of the scoped duplicate.
+				entry.Datacenters = nil
+				continue
+			}
 			dcs := stringslice.CloneStringSlice(id.Datacenters)
 			sort.Strings(dcs)
 			entry.Datacenters = stringslice.MergeSorted(dcs, entry.Datacenters)
